@@ -661,6 +661,13 @@ fn int_shr_vartime<const N: usize>() {
 // ------------------------------------------------------------------------------------- BoxedUint
 // setup boxes the operand slots (width = limb count, public) into BX[..]; run uses references.
 
+/// mixed precision: operand 0 with N limbs, operand 1 with 2N limbs
+fn bx_setup_mixed<const N: usize>() {
+    unsafe {
+        BX[0] = Some(boxed(0, N));
+        BX[1] = Some(boxed(1, 2 * N));
+    }
+}
 fn bx_setup<const K: usize, const N: usize>() {
     unsafe {
         let mut i = 0;
@@ -688,6 +695,12 @@ macro_rules! boxed_ops {
 }
 boxed_ops! {
     boxed_ct_eq => ow(0, bx(0).ct_eq(bx(1)).unwrap_u8() as u64);
+    boxed_ct_eq_mixed => { ow(0, bx(0).ct_eq(bx(1)).unwrap_u8() as u64); ow(1, bx(1).ct_eq(bx(0)).unwrap_u8() as u64) };
+    boxed_ct_lt_mixed => { ow(0, bx(0).ct_lt(bx(1)).unwrap_u8() as u64); ow(1, bx(1).ct_lt(bx(0)).unwrap_u8() as u64); ow(2, bx(0).ct_gt(bx(1)).unwrap_u8() as u64) };
+    boxed_cmp_mixed => { ow(0, ord(Ord::cmp(bx(0), bx(1)))); ow(1, (bx(0) == bx(1)) as u64) };
+    boxed_wrapping_add_mixed => { stb(0, &bx(0).wrapping_add(bx(1))); stb(1, &bx(1).wrapping_add(bx(0))) };
+    boxed_wrapping_sub_mixed => { stb(0, &bx(0).wrapping_sub(bx(1))); stb(1, &bx(1).wrapping_sub(bx(0))) };
+    boxed_bitand_mixed => { stb(0, &(bx(0) & bx(1))); stb(1, &(bx(1) | bx(0))) };
     boxed_ct_lt => ow(0, bx(0).ct_lt(bx(1)).unwrap_u8() as u64);
     boxed_ct_gt => ow(0, bx(0).ct_gt(bx(1)).unwrap_u8() as u64);
     boxed_cmp => ow(0, ord(Ord::cmp(bx(0), bx(1))));
@@ -959,6 +972,15 @@ pub fn registry() -> Vec<Entry> {
     reg!(v, "int.shr_vartime", int_shr_vartime, [1, 2, 4, 8]);
     // BoxedUint (width = limb count at run time; the wrapper is the same code for every width)
     regb!(v, "boxed.ct_eq", 2, boxed_ct_eq, [1, 2, 4, 8, 16, 33]);
+    macro_rules! regbx {
+        ($name:literal, $f:ident, [$($w:literal),*]) => { $( v.push(Entry { name: $name, width: $w, setup: bx_setup_mixed::<$w>, run: $f }); )* };
+    }
+    regbx!("boxed.ct_eq_mixed", boxed_ct_eq_mixed, [1, 2, 4, 8]);
+    regbx!("boxed.ct_lt_mixed", boxed_ct_lt_mixed, [1, 2, 4, 8]);
+    regbx!("boxed.cmp_mixed", boxed_cmp_mixed, [1, 2, 4]);
+    regbx!("boxed.wrapping_add_mixed", boxed_wrapping_add_mixed, [1, 2, 4, 8]);
+    regbx!("boxed.wrapping_sub_mixed", boxed_wrapping_sub_mixed, [1, 2, 4]);
+    regbx!("boxed.bitand_mixed", boxed_bitand_mixed, [1, 2, 4]);
     regb!(v, "boxed.ct_lt", 2, boxed_ct_lt, [1, 2, 4, 8, 16, 33]);
     regb!(v, "boxed.ct_gt", 2, boxed_ct_gt, [1, 2, 4, 8, 16, 33]);
     regb!(v, "boxed.cmp", 2, boxed_cmp, [1, 2, 4, 8, 16, 33]);
